@@ -164,3 +164,102 @@ func gsxC02RuleOrder() {
 		gsxrt.Assert(gsxrt.And(first[i].Pos == second[i].Pos, first[i].Text == second[i].Text), "repeat: two runs over the same file report the rule engine's findings in a different order")
 	}
 }
+
+// gsxC09ParamCombine: the function type paramTypeCombine suggests denotes the same
+// signature as the one it replaces - the same parameter names in the same order, each
+// with the same type and the same variadic-ness. The parameter list is a typed template:
+// 2-3 fields of 1-2 names, each field's type expression chosen among int, string, []int
+// and (last field only) ...int, with the types go/types records for them (`...int` is
+// recorded as []int).
+func gsxC09ParamCombine() {
+	info := gsxInfo("paramTypeCombine")
+	fset := token.NewFileSet()
+	fset.AddFile("f.go", -1, 1000)
+	ctx := linter.NewContext(fset, types.SizesFor("gc", "amd64"))
+	ctx.TypesInfo.Types = map[ast.Expr]types.TypeAndValue{}
+	ctx.TypesInfo.Defs = map[*ast.Ident]types.Object{}
+	ctx.TypesInfo.Uses = map[*ast.Ident]types.Object{}
+	c, err := linter.NewChecker(ctx, info)
+	if err != nil {
+		panic(err)
+	}
+	tint := types.Typ[types.Int]
+	pos := token.Pos(20)
+	next := func() token.Pos { pos += 4; return pos }
+	typed := func(e ast.Expr, t types.Type) ast.Expr {
+		ctx.TypesInfo.Types[e] = types.TypeAndValue{Type: t}
+		return e
+	}
+	mkType := func(kind int) ast.Expr {
+		switch kind {
+		case 0:
+			return typed(&ast.Ident{Name: "int", NamePos: next()}, tint)
+		case 1:
+			return typed(&ast.Ident{Name: "string", NamePos: next()}, types.Typ[types.String])
+		case 2:
+			return typed(&ast.ArrayType{Lbrack: next(), Elt: typed(&ast.Ident{Name: "int", NamePos: next()}, tint)}, types.NewSlice(tint))
+		default:
+			return typed(&ast.Ellipsis{Ellipsis: next(), Elt: typed(&ast.Ident{Name: "int", NamePos: next()}, tint)}, types.NewSlice(tint))
+		}
+	}
+	nfields := 2 + gsxrt.Choose("fields", 2)
+	params := &ast.FieldList{Opening: next()}
+	letter := 0
+	for i := 0; i < nfields; i++ {
+		p := "field" + string(rune('0'+i))
+		kind := gsxrt.Choose(p+".type", 4)
+		nn := 1 + gsxrt.Choose(p+".names", 2)
+		gsxrt.Assume(kind != 3 || (i == nfields-1 && nn == 1))
+		f := &ast.Field{}
+		for k := 0; k < nn; k++ {
+			f.Names = append(f.Names, &ast.Ident{Name: string(rune('a' + letter)), NamePos: next()})
+			letter++
+		}
+		f.Type = mkType(kind)
+		params.List = append(params.List, f)
+	}
+	params.Closing = next()
+	decl := &ast.FuncDecl{Name: &ast.Ident{Name: "gsxF", NamePos: 10}, Type: &ast.FuncType{Func: 5, Params: params}, Body: &ast.BlockStmt{Lbrace: next(), Rbrace: next()}}
+	v := gsxrt.Field(gsxrt.Field(c, "fileWalker"), "visitor").(interface{ VisitFuncDecl(*ast.FuncDecl) })
+	v.VisitFuncDecl(decl)
+	gsxrt.Reached("visited")
+	args := gsxrt.LastWarnArgs()
+	if len(args) != 2 {
+		return
+	}
+	gsxrt.Reached("suggested")
+	sugg, ok := args[1].(*ast.FuncType)
+	if !ok {
+		return
+	}
+	// flatten: one entry per parameter name: (name, kind of type expression)
+	flat := func(fl *ast.FieldList) (names []string, kinds []int) {
+		for _, f := range fl.List {
+			k := 0
+			switch t := f.Type.(type) {
+			case *ast.Ident:
+				if t.Name == "string" {
+					k = 1
+				}
+			case *ast.ArrayType:
+				k = 2
+			case *ast.Ellipsis:
+				k = 3
+			}
+			for _, n := range f.Names {
+				names = append(names, n.Name)
+				kinds = append(kinds, k)
+			}
+		}
+		return
+	}
+	n1, k1 := flat(decl.Type.Params)
+	n2, k2 := flat(sugg.Params)
+	same := len(n1) == len(n2)
+	if same {
+		for i := range n1 {
+			same = gsxrt.And(same, n1[i] == n2[i], k1[i] == k2[i])
+		}
+	}
+	gsxrt.Assert(same, "suggest: the suggested function type is not the signature it replaces (a parameter changes its type or its variadic-ness)")
+}
